@@ -51,3 +51,249 @@ package workflow
 //@   ensures result != nil
 //@ func NewExecutor
 //@   ensures [executor-or-error] (result1 == nil) != (result == nil)
+//
+// ---- workflow/workflow.go: the run loop ----
+//
+// loopState is the state of one run. Its map and channel fields are set once when the run is
+// created; the contents of the maps and outputDone are shared between the goroutines of the
+// steps and protected by lock.
+//@ fields loopState guarded_by(lock): outputDone
+//@ fields loopState guarded_contents(lock): data waitingOutputs
+//@ fields loopState frozen_contents: runningSteps
+//@ fields loopState neverclosed: recentErrors
+//@ fields loopState received_by(execute): recentErrors
+//@ fields loopState immutable: logger config lock data dag callableFunctions runningSteps outputDataChannel waitingOutputs context recentErrors cancel workflowContext lifecycles
+//
+// known(l, s): the data model of run l has an entry for step s (set when the entry is created; an
+// entry is never removed, so the ghost only grows)
+//@ ghost known(l *loopState, s string) bool
+//@ pred wfloop(l *loopState) = l != nil && l.logger != nil && l.config != nil && l.lock != nil && l.data != nil && l.dag != nil && \
+//@     l.runningSteps != nil && l.outputDataChannel != nil && l.waitingOutputs != nil && l.context != nil && \
+//@     l.recentErrors != nil && l.cancel != nil && chcap(l.outputDataChannel) == 1 && chcap(l.recentErrors) == 20
+//
+//@ lockinv loopState.lock
+//@   inv [output-handed-over-at-most-once] !outputDone ==> chlen(outputDataChannel) == 0 && !closed(outputDataChannel)
+//@   inv [launched-steps-are-non-nil] forall k string :: indom(runningSteps, k) ==> runningSteps[k] != nil
+//@   inv [data-model-has-a-steps-map] typeis(data["steps"], map[string]any) && data["steps"].(map[string]any) != nil && data["steps"].(map[string]any) != data && \
+//@        allocated(data["steps"].(map[string]any))
+//@   inv [every-entry-of-the-steps-map-is-a-stage-map] forall s string :: indom(data["steps"].(map[string]any), s) ==> \
+//@        typeis(data["steps"].(map[string]any)[s], map[string]any) && data["steps"].(map[string]any)[s].(map[string]any) != nil && \
+//@        data["steps"].(map[string]any)[s].(map[string]any) != data && data["steps"].(map[string]any)[s].(map[string]any) != data["steps"].(map[string]any) && \
+//@        allocated(data["steps"].(map[string]any)[s].(map[string]any))
+//@   inv [every-known-step-has-an-entry] forall s string :: known(self, s) ==> indom(data["steps"].(map[string]any), s)
+//
+// DAG node ids (workflow/model.go); sprintf is the verifier's model of fmt.Sprintf (a
+// deterministic function of format and arguments, nothing else assumed).
+//@ pure stagenode(s string, g string) string = sprintf("steps.%s.%s", any(s), any(g))
+//@ pure outnode(s string, g string, o string) string = sprintf("steps.%s.%s.%s", any(s), any(g), any(o))
+//@ func GetStageNodeID
+//@   ensures result == stagenode(stepID, stageID)
+//@ func GetOutputNodeID
+//@   ensures result == outnode(stepID, stageID, outputID)
+//
+//@ func (*loopState).markStageNodeUnresolvable
+//@   requires wfloop(l) && held(l.lock)
+//@   modifies ghost nodestatus
+//@   ensures [stage-node-no-longer-waiting] indag(l.dag, stagenode(stepID, stageID)) ==> nodestatus(dagnode(l.dag, stagenode(stepID, stageID))) != "waiting"
+//@   ensures [marks-only-unresolvable] forall n any :: nodestatus(n) != old(nodestatus(n)) ==> nodestatus(n) == "unresolvable" && old(nodestatus(n)) == "waiting"
+//
+//@ func (*loopState).markOutputsUnresolvable
+//@   requires wfloop(l) && held(l.lock)
+//@   modifies ghost nodestatus
+//@   ensures [other-outputs-of-the-stage-no-longer-waiting] forall i int, o string :: 0 <= i && i < len(l.lifecycles[stepID].Stages) && \
+//@        l.lifecycles[stepID].Stages[i].ID == stageID && indom(l.lifecycles[stepID].Stages[i].Outputs, o) && \
+//@        (skippedOutput == nil || o != *skippedOutput) && indag(l.dag, outnode(stepID, stageID, o)) ==> \
+//@        nodestatus(dagnode(l.dag, outnode(stepID, stageID, o))) != "waiting"
+//@   ensures [marks-only-unresolvable] forall n any :: nodestatus(n) != old(nodestatus(n)) ==> nodestatus(n) == "unresolvable" && old(nodestatus(n)) == "waiting"
+//@   loop 1 invariant forall i int, o string :: 0 <= i && i <= rangeidx && \
+//@        stages[i].ID == stageID && indom(stages[i].Outputs, o) && \
+//@        (skippedOutput == nil || o != *skippedOutput) && indag(l.dag, outnode(stepID, stageID, o)) ==> \
+//@        nodestatus(dagnode(l.dag, outnode(stepID, stageID, o))) != "waiting"
+//@   loop 1 invariant forall n any :: nodestatus(n) != old(nodestatus(n)) ==> nodestatus(n) == "unresolvable" && old(nodestatus(n)) == "waiting"
+//@   loop 1 invariant -1 <= rangeidx && rangeidx < len(stages) && stages == l.lifecycles[stepID].Stages
+//@   loop 2 invariant forall o string :: visited(o) && (skippedOutput == nil || o != *skippedOutput) && indag(l.dag, outnode(stepID, stageID, o)) ==> \
+//@        nodestatus(dagnode(l.dag, outnode(stepID, stageID, o))) != "waiting"
+//@   loop 2 invariant forall n any :: nodestatus(n) != old(nodestatus(n)) ==> nodestatus(n) == "unresolvable" && old(nodestatus(n)) == "waiting"
+//@   loop 2 invariant forall i int, o string :: 0 <= i && i <= outeridx && \
+//@        stages[i].ID == stageID && indom(stages[i].Outputs, o) && \
+//@        (skippedOutput == nil || o != *skippedOutput) && indag(l.dag, outnode(stepID, stageID, o)) ==> \
+//@        nodestatus(dagnode(l.dag, outnode(stepID, stageID, o))) != "waiting"
+//@   loop 2 invariant stage.ID == stageID && -1 <= outeridx && outeridx + 1 < len(stages) && stage == stages[outeridx + 1] && stages == l.lifecycles[stepID].Stages
+//
+// Errors are never nil when they are queued for the caller of Execute.
+//@ chaninv loopState.recentErrors msg != nil
+//
+//@ func (*loopState).terminateAllSteps
+//@   requires wfloop(l) && nolocks()
+//@   requires forall k string :: indom(l.runningSteps, k) ==> l.runningSteps[k] != nil
+//@   modifies ghost forceclosed
+//@   ensures [every-launched-step-is-force-closed] forall k string :: indom(l.runningSteps, k) ==> forceclosed(l.runningSteps[k])
+//@   loop 1 invariant forall k string :: visited(k) ==> forceclosed(l.runningSteps[k])
+//
+// Only the goroutine that runs Execute receives from recentErrors: an error that is in the
+// channel when getLastError is called is part of what it returns.
+//@ func (*loopState).getLastError
+//@   opt goroutine execute
+//@   requires wfloop(l)
+//@   ensures [a-queued-error-is-reported] old(chlen(l.recentErrors)) >= 1 ==> result != nil
+//@   loop 1 invariant old(chlen(l.recentErrors)) >= 1 ==> chlen(l.recentErrors) >= 1 || (exists k string :: indom(errors, k))
+//@   loop 1 invariant forall k string :: indom(errors, k) ==> errors[k] != nil
+//@ func (*loopState).handleErrors
+//@   opt goroutine execute
+//@   requires wfloop(l)
+//@   ensures [a-queued-error-is-reported] old(chlen(l.recentErrors)) >= 1 ==> result != nil
+//
+//@ func (*loopState).countStates
+//@   requires wfloop(l) && held(l.lock) && lockinv(l)
+//
+//@ func (*loopState).checkForDeadlocks
+//@   requires wfloop(l) && held(l.lock) && lockinv(l) && wg != nil
+//@   ensures lockinv(l)
+//@   site send#1 assert [no-progress-is-reported-only-when-nothing-can-run] counters.starting == 0 && counters.running == 0 && !hasReadyNodes && !l.outputDone && retries <= 0
+//@   ensures [a-stalled-run-is-reported] callres(countStates, 1, 0).starting == 0 && callres(countStates, 1, 0).running == 0 && \
+//@        !callres(HasReadyNodes, 1, 0) && !l.outputDone && retries <= 0 ==> sentnow(l.recentErrors)
+//
+//@ func (*loopState).checkForDeadlocks$1
+//@   opt goroutine deadlockcheck
+//@   opt token wg
+//@   requires wfloop(l) && nolocks() && wg != nil
+//
+// ---- the prepared workflow (representation invariant established by Prepare) ----
+//@ fields executableWorkflow immutable: logger config callableFunctions dag input stepRunData workflowContext internalDataModel runnableSteps lifecycles outputSchema
+//@ fields DAGItem immutable: Kind StepID StageID OutputID OutputSchema Data DataSchema Provider
+//@ pure outputSchemaMap(e *executableWorkflow) map[string]*schema.StepOutputSchema = e.outputSchema
+//@ pred wfitem(it *DAGItem) = it != nil && \
+//@     (it.Data != nil ==> it.Kind == DAGItemKindStepStage || it.Kind == DAGItemKindOutput) && \
+//@     (it.Kind == DAGItemKindStepStage ==> it.StepID != "" && it.StageID != "")
+// every stage node belongs to a step of the workflow
+//@ pred stepsKnown(l *loopState) = forall id string :: indag(l.dag, id) && nodeitem(dagnode(l.dag, id)).(*DAGItem).Kind == DAGItemKindStepStage ==> \
+//@     indom(l.lifecycles, nodeitem(dagnode(l.dag, id)).(*DAGItem).StepID)
+//@ pred stepsKnownE(e *executableWorkflow) = forall id string :: indag(e.dag, id) && nodeitem(dagnode(e.dag, id)).(*DAGItem).Kind == DAGItemKindStepStage ==> \
+//@     indom(e.lifecycles, nodeitem(dagnode(e.dag, id)).(*DAGItem).StepID)
+//@ pred wfitems(d any) = forall id string :: indag(d, id) ==> typeis(nodeitem(dagnode(d, id)), *DAGItem) && wfitem(nodeitem(dagnode(d, id)).(*DAGItem))
+//@ pred wfexec(e *executableWorkflow) = e != nil && e.logger != nil && e.config != nil && e.dag != nil && e.input != nil && wfitems(e.dag) && stepsKnownE(e) && \
+//@     (forall k string :: indom(e.outputSchema, k) ==> e.outputSchema[k] != nil) && \
+//@     (forall k string :: indom(e.runnableSteps, k) ==> e.runnableSteps[k] != nil) && \
+//@     (forall k string :: indom(e.lifecycles, k) ==> indom(e.runnableSteps, k))
+//
+//@ func (*executableWorkflow).OutputSchema
+//@   requires e != nil
+//@   ensures result == e.outputSchema
+//
+//@ func (*executableWorkflow).handleOutput
+//@   opt goroutine execute
+//@   requires wfexec(e) && wfloop(l)
+//@   ensures [error-has-no-output] result2 != nil ==> result == "" && result1 == nil
+//@   ensures [returns-the-handed-over-output] result2 == nil ==> result == outputDataEntry.outputID && result1 == outputDataEntry.outputData
+//@   ensures [output-is-declared] result2 == nil ==> indom(e.outputSchema, result)
+//@   ensures [output-conforms-to-its-declared-schema] result2 == nil ==> called(Unserialize, 1) && callarg(Unserialize, 1, 1) == result1 && callres(Unserialize, 1, 1) == nil
+//
+// ---- callbacks of the steps ----
+//@ func field stageChangeHandler.onStageChange(step, previousStage, previousStageOutputID, previousStageOutput, stage, waitingForInput, wg)
+//@   requires nolocks() && wg != nil
+//@   requires previousStage != nil && previousStageOutputID != nil ==> previousStageOutput != nil
+//@ func field stageChangeHandler.onStepComplete(step, previousStage, previousStageOutputID, previousStageOutput, wg)
+//@   requires nolocks() && wg != nil
+//@   requires previousStageOutputID != nil ==> previousStageOutput != nil
+//@ func field stageChangeHandler.onStepStageFailure(step, stage, wg, err)
+//@   requires nolocks()
+//
+//@ func (stageChangeHandler).OnStageChange
+//@   opt assumes iface step.StageChangeHandler.OnStageChange
+//@   requires s.onStageChange != nil
+//@ func (stageChangeHandler).OnStepComplete
+//@   opt assumes iface step.StageChangeHandler.OnStepComplete
+//@   requires s.onStepComplete != nil
+//@ func (stageChangeHandler).OnStepStageFailure
+//@   opt assumes iface step.StageChangeHandler.OnStepStageFailure
+//@   requires s.onStepStageFailure != nil
+//
+//@ pure stepsOf(l *loopState) map[string]any = l.data["steps"].(map[string]any)
+//
+//@ func (*loopState).onStageComplete
+//@   requires wfloop(l) && nolocks() && wg != nil && wfitems(l.dag) && stepsKnown(l) && known(l, stepID)
+//@   requires [output-comes-with-its-data] previousStage != nil && previousStageOutputID != nil ==> previousStageOutput != nil
+//@   ensures nolocks()
+//@   site call GetNodeByID#1 snapshot locked
+//@   site call notifySteps#1 assert [stage-node-resolved-before-dependants-are-notified] nodestatus(dagnode(l.dag, stagenode(stepID, *previousStage))) == "resolved"
+//@   site call notifySteps#1 assert [output-node-resolved-before-dependants-are-notified] previousStageOutputID != nil ==> \
+//@        nodestatus(dagnode(l.dag, outnode(stepID, *previousStage, *previousStageOutputID))) == "resolved"
+//@   site call notifySteps#1 assert [output-stored-before-dependants-are-notified] previousStageOutputID != nil ==> \
+//@        stepsOf(l)[stepID].(map[string]any)[*previousStage].(map[string]any)[*previousStageOutputID] == *previousStageOutput
+//@   site call notifySteps#1 assert [data-of-other-steps-is-kept] forall s string :: s != stepID ==> \
+//@        indom(stepsOf(l), s) == at(locked, indom(stepsOf(l), s)) && stepsOf(l)[s] == at(locked, stepsOf(l)[s])
+//@   site call notifySteps#1 assert [data-of-other-stages-is-kept] forall g string :: g != *previousStage ==> \
+//@        indom(stepsOf(l)[stepID].(map[string]any), g) == at(locked, indom(stepsOf(l)[stepID].(map[string]any), g)) && \
+//@        stepsOf(l)[stepID].(map[string]any)[g] == at(locked, stepsOf(l)[stepID].(map[string]any)[g])
+//
+//@ func (*loopState).notifySteps
+//@   requires wfloop(l) && held(l.lock) && lockinv(l) && wfitems(l.dag) && stepsKnown(l)
+//@   modifies l.outputDone, map l.waitingOutputs, ghost nodestatus, chan l.outputDataChannel, chan l.recentErrors
+//@   ensures lockinv(l)
+//@   loop 1 invariant lockinv(l) && held(l.lock) && (forall k string :: indom(readyNodes, k) ==> indag(l.dag, k))
+//@   site call ProvideStageInput#1 assert [a-node-whose-dependency-failed-gets-no-input] readyNodes[nodeID] != "unresolvable"
+//@   site call ProvideStageInput#1 assert [input-goes-to-the-step-and-stage-of-the-node] callrecv(ProvideStageInput, 1) == l.runningSteps[nodeItem.StepID] && callarg(ProvideStageInput, 1, 0) == nodeItem.StageID
+//@   site call ProvideStageInput#1 assert [input-is-the-node-data-evaluated-over-the-data-model] callarg(resolveExpressions, 1, 1) == nodeItem.Data && callarg(resolveExpressions, 1, 2) == any(l.data) && \
+//@        callres(resolveExpressions, 1, 0) == any(stageInputData) && callres(resolveExpressions, 1, 1) == nil
+//@   site call ProvideStageInput#1 assert [input-validated-against-the-stage-schema] callrecv(Unserialize, 1) == nodeItem.DataSchema && callarg(Unserialize, 1, 0) == any(stageInputData) && callres(Unserialize, 1, 1) == nil
+//@   site call close#1 assert [output-only-from-a-ready-output-node] readyNodes[nodeID] != "unresolvable" && nodeItem.Kind == DAGItemKindOutput
+//@   site call close#1 assert [workflow-output-is-the-output-node-data-evaluated-over-the-data-model] callarg(resolveExpressions, 1, 1) == nodeItem.Data && callarg(resolveExpressions, 1, 2) == any(l.data) && \
+//@        callres(resolveExpressions, 1, 1) == nil && lastsent(l.outputDataChannel).outputData == callres(resolveExpressions, 1, 0) && lastsent(l.outputDataChannel).outputID == nodeItem.OutputID
+//
+//@ func (*loopState).resolveExpressions
+//@   requires wfloop(l)
+//@   modifies nothing
+//@ func (*loopState).resolveOneOfExpression
+//@   requires wfloop(l) && expr != nil
+//@   modifies nothing
+//@ func (*loopState).resolveOptionalExpression
+//@   requires wfloop(l) && expr != nil
+//@   modifies nothing
+//
+// ---- Execute: one run of a prepared workflow ----
+//@ pred stepMapsOK(l *loopState) = typeis(l.data["steps"], map[string]any) && stepsOf(l) != nil && stepsOf(l) != l.data && allocated(stepsOf(l)) && \
+//@     (forall k string :: indom(stepsOf(l), k) ==> typeis(stepsOf(l)[k], map[string]any) && stepsOf(l)[k].(map[string]any) != nil && \
+//@         stepsOf(l)[k].(map[string]any) != l.data && stepsOf(l)[k].(map[string]any) != stepsOf(l) && allocated(stepsOf(l)[k].(map[string]any)))
+//
+//@ func (*executableWorkflow).Execute
+//@   opt goroutine execute
+//@   requires wfexec(e) && nolocks() && ctx != nil
+//@   ensures [error-has-no-output] result2 != nil ==> result == "" && result1 == nil
+//@   ensures [output-is-declared] result2 == nil ==> indom(e.outputSchema, result)
+//@   ensures [input-is-validated-before-anything-runs] called(Unserialize, 1) && callrecv(Unserialize, 1) == any(e.input) && callarg(Unserialize, 1, 0) == serializedInput
+//@   ensures [invalid-input-starts-nothing] callres(Unserialize, 1, 1) != nil ==> result2 != nil && !called(Start, 1)
+//@   ensures nolocks()
+//@   site mapwrite#5 set known(l, stepID)
+//@   site call Start#1 assert [steps-see-the-normalised-input] l.data["input"] == callres(Serialize, 1, 0) && callrecv(Serialize, 1) == any(e.input) && \
+//@        callarg(Serialize, 1, 0) == callres(Unserialize, 1, 0) && callres(Serialize, 1, 1) == nil && callres(Unserialize, 1, 1) == nil
+//@   site return#* assert [every-launched-step-is-force-closed] forall k string :: indom(l.runningSteps, k) ==> forceclosed(l.runningSteps[k])
+//@   loop 2 invariant held(l.lock) && wfloop(l)
+//@   loop 2 invariant fresh(l)
+//@   loop 2 invariant !l.outputDone
+//@   loop 2 invariant l.lifecycles == e.lifecycles
+//@   loop 2 invariant stepMapsOK(l)
+//@   loop 2 invariant l.data["input"] == reSerializedInput
+//@   loop 2 invariant chlen(l.outputDataChannel) == 0 && !closed(l.outputDataChannel)
+//@   loop 2 invariant wfitems(l.dag) && stepsKnown(l)
+//@   loop 2 invariant forall k string :: indom(l.runningSteps, k) ==> l.runningSteps[k] != nil && !forceclosed(l.runningSteps[k])
+//@   loop 2 invariant forall k string :: known(l, k) ==> indom(stepsOf(l), k)
+//@   loop 3 invariant held(l.lock) && wfloop(l) && stepMapsOK(l) && l.data["input"] == reSerializedInput
+//@   loop 3 invariant stepsOf(l) != stepDataModel
+//@   loop 3 invariant forall k string :: known(l, k) ==> indom(stepsOf(l), k)
+//
+// The callbacks given to a step (closures of Execute). What they capture is fixed when they are
+// created: the run state, and a step id that already has its entry in the data model.
+//@ func (*executableWorkflow).Execute$1
+//@   opt assumes field stageChangeHandler.onStageChange
+//@   captures e != nil && e.logger != nil && wfloop(l) && wfitems(l.dag) && stepsKnown(l) && known(l, stepID)
+//@ func (*executableWorkflow).Execute$2
+//@   opt assumes field stageChangeHandler.onStepComplete
+//@   captures e != nil && e.logger != nil && wfloop(l) && wfitems(l.dag) && stepsKnown(l) && known(l, stepID)
+//@ func (*executableWorkflow).Execute$3
+//@   opt assumes field stageChangeHandler.onStepStageFailure
+//@   captures e != nil && e.logger != nil && wfloop(l) && wfitems(l.dag) && stepsKnown(l) && known(l, stepID)
+//@   ensures nolocks()
+//@ func (*executableWorkflow).Execute$5
+//@   opt goroutine terminate
+//@   opt token wg
+//@   requires wfloop(l) && nolocks() && wg != nil && (forall k string :: indom(l.runningSteps, k) ==> l.runningSteps[k] != nil)
